@@ -5075,6 +5075,22 @@ func (formalArgs createArgsUnmapped) exec(vm *vm) {
 	vm.pc++
 }
 
+// createArgsUnmappedStack is createArgsUnmapped for functions entered with enterFunc1, where all the arguments
+// are still on the stack when the arguments object is created.
+type createArgsUnmappedStack uint32
+
+func (formalArgs createArgsUnmappedStack) exec(vm *vm) {
+	args := vm.r.newBaseObject(vm.r.global.ObjectPrototype, "Arguments")
+	for i, v := range vm.stack[vm.sb+1 : vm.sb+1+vm.args] {
+		args._put(unistring.String(strconv.Itoa(i)), nilSafe(v))
+	}
+	args._putProp("length", intToValue(int64(vm.args)), true, false, true)
+	args._put("callee", vm.r.newThrowerProperty(false))
+	args._putSym(SymIterator, valueProp(vm.r.getArrayValues(), true, false, true))
+	vm.push(args.val)
+	vm.pc++
+}
+
 type _enterWith struct{}
 
 var enterWith _enterWith
